@@ -171,7 +171,14 @@ def r2(run):
                         incs.append((bi, e, st["sp"]))
             ok = len(incs) == 1 and any(x[0] == "call" and x[1].fn.endswith("::len") for x in walk(incs[0][1]))
             run.ob("%s|counter-is-bytes-written" % fn, ok, incs[0][2] if incs else hb.sp, "the counter is the sum of the chunk lengths written", reason="empty-body-gets-hash")
-            writes = [c for c in hb.calls() if c.fn.endswith("write_all") and c.bb in hb.live_blocks()]
+            writes = [c for c in hb.calls() if c.fn.endswith(("write_all", "AsyncWriteExt::write", "io::Write::write")) and c.bb in hb.live_blocks()]
+            if not writes:
+                # the chunk may be handed to a crate-local helper that drives the writer (`cas_write_chunk(&mut writer, &data)`)
+                for c in hb.calls():
+                    if c.bb in hb.live_blocks() and c.local and any("cacache::put::" in hb.types.s(hb.local_ty(l)) for l in [q.root_local(hb, a) for a in c.args] if l is not None):
+                        pbs = producer_bodies(run, c.fn)
+                        if any(cc.fn.endswith(("write_all", "AsyncWriteExt::write", "io::Write::write")) for pb in pbs for cc in pb.calls()):
+                            writes.append(c)
             run.ob("%s|every-chunk-written" % fn, len(writes) >= 1 and all(any(q.reaches(hb, w.bb, i[0]) for i in incs) for w in writes), hb.sp,
                    "each body chunk is written to the CAS writer and then counted", reason="content-not-written")
     # POST /cas answers 400 for an empty body (no hash is reported for nothing)
